@@ -1,7 +1,30 @@
-"""C15 cases: byte-slice decoding and endianness helpers."""
+"""C15 cases: byte-slice decoding and endianness helpers.
+
+Beyond the request stream answered by the three ordinary harness builds (dbg, rel, nightly-dbg) this module
+adds two runs of its own (hooks `pre` / `post` of check.py):
+  * `nightly-rel`: the `*_bytes` methods (bnum's `nightly` feature) in a build WITHOUT debug assertions /
+    overflow checks (check.py builds the nightly binary in the debug profile only);
+  * `miri-be`: the requests `X@be` ("method X on a big-endian target") are answered by the same harness
+    binary interpreted by Miri for s390x-unknown-linux-gnu, so the `#[cfg(target_endian = "big")]` arms of
+    src/buint/endian.rs are really compiled and executed (the Lean driver answers `X@be` with `e = false`).
+"""
+import os
+import subprocess
+
 from .common import *
 
 NIGHTLY = True  # to_*_bytes / from_*_bytes need bnum's `nightly` feature (cargo +nightly)
+
+# the big-endian target the harness is interpreted for (Miri needs no linker / emulator for it)
+BE_TARGET = "s390x-unknown-linux-gnu"
+# set VERIF_C15_NO_MIRI=1 to switch the big-endian run off (development only; the run says so)
+NO_MIRI = bool(os.environ.get("VERIF_C15_NO_MIRI"))
+
+SLICE_OPS = ("from_be_slice", "from_le_slice")
+SWAP_OPS = ("to_be", "to_le", "from_be", "from_le")
+TO_BYTES = ("to_be_bytes", "to_le_bytes", "to_ne_bytes")
+FROM_BYTES = ("from_be_bytes", "from_le_bytes", "from_ne_bytes")
+NIGHTLY_OPS = TO_BYTES + FROM_BYTES
 
 
 def slice_case(rng, w, n, signed):
@@ -22,24 +45,151 @@ def slice_case(rng, w, n, signed):
     return "len%s" % ("<" if ln < BY else "=" if ln == BY else ">"), padb + core
 
 
+def length_classes(w, n):
+    """Slice lengths that select different paths of the decoding loops: around 0, one digit, the last whole
+    digit below BYTES, BYTES itself, one and two digits beyond it, 2*BYTES(+2), and EVERY residue modulo the
+    digit size for the partial digit landing on the top (sign) digit and on the first excess digit."""
+    bw = w // 8
+    BY = bw * n
+    L = {0, 1, 2, bw - 1, bw, bw + 1, BY - bw - 1, BY - bw, BY - 1, BY, BY + 1, BY + bw - 1, BY + bw, BY + bw + 1,
+         BY + 2 * bw, BY + 2 * bw + 1, 2 * BY - 1, 2 * BY, 2 * BY + 1, 2 * BY + 2}
+    for r in range(1, bw):
+        L.add(BY - bw + r)      # partial digit = digit N-1 (sign digit of the signed types)
+        L.add(BY + r)           # partial digit = first excess digit
+        L.add(2 * BY - bw + r)  # partial digit = last excess digit of an almost double-length slice
+    return sorted(l for l in L if 0 <= l <= 2 * BY + 2)
+
+
+def slice_contents(rng, ln, BY, bw):
+    """(tag, big-endian byte string of length ln): general content classes.  `excess` most significant bytes
+    beyond BYTES (pure 00 / pure ff / one deviating byte) in front of a core whose top byte has each sign."""
+    ex = max(0, ln - BY)
+    cl = ln - ex
+    if ln == 0:
+        return [("empty", b"")]
+
+    def core(top):
+        return bytes([top] + [rng.randrange(256) for _ in range(cl - 1)]) if cl else b""
+    out = [("all-00", bytes(ln)), ("all-ff", b"\xff" * ln),
+           ("min-of-len", b"\x80" + bytes(ln - 1)), ("max-of-len", b"\x7f" + b"\xff" * (ln - 1)),
+           ("minus-small", b"\xff" * (ln - 1) + bytes([rng.randrange(0x80, 0x100)])),
+           ("plus-small", bytes(ln - 1) + bytes([rng.randrange(1, 0x80)]))]
+    for top in (0x00, 0x7f, 0x80, 0xff):
+        if ex == 0:
+            out.append(("short/top%02x" % top, core(top)))
+        else:
+            for fill in (0x00, 0xff):
+                out.append(("pad%02x/top%02x" % (fill, top), bytes([fill]) * ex + core(top)))
+    if ex:
+        # core = exactly MIN / MAX / -1 / M-1 behind correct and behind wrong padding
+        out.append(("padff/core-min", b"\xff" * ex + b"\x80" + bytes(cl - 1)))
+        out.append(("pad00/core-max", bytes(ex) + b"\x7f" + b"\xff" * (cl - 1)))
+        out.append(("pad00/core-min", bytes(ex) + b"\x80" + bytes(cl - 1)))
+        out.append(("padff/core-max", b"\xff" * ex + b"\x7f" + b"\xff" * (cl - 1)))
+        # ONE deviating byte in the excess region: first byte (it carries the sign), last byte, a digit boundary
+        pos = {0, ex - 1, rng.randrange(ex)}
+        if ex > bw:
+            pos |= {ex - bw, ex - bw - 1, (ex - 1) % bw}
+        for p in sorted(pos):
+            fill, top = rng.choice(((0, 0x00), (0, 0x7f), (0xff, 0x80), (0xff, 0xff), (0, 0x80)))
+            pad = bytearray([fill]) * ex
+            pad[p] = rng.choice([fill ^ 0xff, fill ^ 0x01, fill ^ 0x80, rng.randrange(256)])
+            out.append(("one-bad-pad-byte@%s" % ("first" if p == 0 else "last" if p == ex - 1 else "inner"), bytes(pad) + core(top)))
+    return out
+
+
+def slice_lines(s, cfg, tag, b, suffix=""):
+    yield f"from_be_slice{suffix} {s}{cfg} {b.hex() or '-'}", tag
+    yield f"from_le_slice{suffix} {s}{cfg} {b[::-1].hex() or '-'}", tag
+
+
+def length_sweep(rng, cfg, per_len, lens=None, suffix=""):
+    """every length class x (all content classes | a sample of `per_len` of them) x u/i x be/le"""
+    w, n = wn(cfg)
+    bw = w // 8
+    BY = bw * n
+    for ln in (lens if lens is not None else length_classes(w, n)):
+        cs = slice_contents(rng, ln, BY, bw)
+        if per_len is not None and len(cs) > per_len:
+            cs = rng.sample(cs, per_len)
+        for tag, b in cs:
+            for s in "ui":
+                yield from slice_lines(s, cfg, "lenclass/" + tag, b, suffix)
+
+
+def value_lines(rng, cfg, a, tag, suffix="", ops=SWAP_OPS + TO_BYTES):
+    for s in "ui":
+        for op in ops:
+            yield f"{op}{suffix} {s}{cfg} {hx(a)}", tag
+
+
+def bytes_lines(rng, cfg, suffix="", ops=FROM_BYTES):
+    w, n = wn(cfg)
+    BY = w * n // 8
+    for s in "ui":
+        for op in ops:
+            c = rng.randrange(4)
+            if c == 0:
+                b = bytes(rng.choice([0, 0xff, 0x80, rng.randrange(256)]) for _ in range(BY))
+            elif c == 1:
+                b = bytes(rng.randrange(256) for _ in range(BY))
+            elif c == 2:
+                # every byte distinct from its neighbours and position-dependent: any misplaced byte shows
+                b = bytes((i * 37 + 11) & 0xff for i in range(BY))
+            else:
+                # a single non-zero byte at a random position
+                b = bytearray(BY)
+                b[rng.randrange(BY)] = rng.choice([1, 0x80, 0xff, rng.randrange(1, 256)])
+                b = bytes(b)
+            yield f"{op}{suffix} {s}{cfg} {b.hex()}", "bytes"
+
+
+def position_value(w, n):
+    """the pattern whose byte i (little-endian) is (i*37+11) mod 256: every byte permutation is visible"""
+    return sum(((i * 37 + 11) & 0xff) << (8 * i) for i in range(w * n // 8))
+
+
+# configurations of the big-endian (Miri) run: every digit type, odd and even digit counts.  Miri interprets
+# the harness at roughly 20 requests per second, hence a small, dense sample (the big-endian arms are
+# `return x` / `swap_bytes()` / `to_be_bytes()` / `from_be_bytes()`: what has to be seen is WHICH one is taken).
+BE_CFGS = ["8x3", "16x3", "32x2", "64x3"]
+BE_CFGS_LIGHT = ["8x1", "16x1", "64x1", "64x2", "64x5"]       # byte-position pattern only
+BE_CFGS_THOROUGH = ["8x12", "16x2", "32x3", "32x6", "64x12"]
+
+
+def be_lines(rng, cfg, light):
+    w, n = wn(cfg)
+    bw = w // 8
+    BY = bw * n
+    vals = [("byte-positions", position_value(w, n))] + ([] if light else [value(rng, w, n)])
+    for t, a in vals:
+        yield from value_lines(rng, cfg, a, "big-endian-target/" + t, "@be")
+    yield from bytes_lines(rng, cfg, "@be", FROM_BYTES[1:] if light else FROM_BYTES)
+    if not light:
+        yield from length_sweep(rng, cfg, 1, [BY - 1, BY + 1], "@be")
+
+
 def gen(rng, tier):
-    reps = 80 if tier == "thorough" else 40
+    thorough = tier == "thorough"
+    reps = 80 if thorough else 40
     for cfg in cfgs(tier):
         w, n = wn(cfg)
-        if n > 40:
-            continue
-        for _ in range(reps):
+        # wide instantiations (8x64; thorough: 64x64, 64x128) get fewer repetitions, not none
+        r = reps if w * n <= 1024 else max(4, reps * 1024 // (w * n) // 2)
+        for _ in range(r):
             for s in "ui":
                 t, b = slice_case(rng, w, n, s == "i")
                 yield f"from_be_slice {s}{cfg} {b.hex() or '-'}", t
                 t, b = slice_case(rng, w, n, s == "i")
                 yield f"from_le_slice {s}{cfg} {b[::-1].hex() or '-'}", t
                 t, a = value(rng, w, n)
-                for op in ("to_be", "to_le", "from_be", "from_le", "to_be_bytes", "to_le_bytes", "to_ne_bytes"):
+                for op in SWAP_OPS + TO_BYTES:
                     yield f"{op} {s}{cfg} {hx(a)}", t
                 BY = w * n // 8
-                for op in ("from_be_bytes", "from_le_bytes", "from_ne_bytes"):
+                for op in FROM_BYTES:
                     yield f"{op} {s}{cfg} {bytes(rng.choice([0, 0xff, 0x80, rng.randrange(256)]) for _ in range(BY)).hex()}", "bytes"
+        yield from value_lines(rng, cfg, position_value(w, n), "byte-positions")
+        yield from bytes_lines(rng, cfg)
     # all lengths 0..=2*BYTES+2 for small configurations
     for cfg in ["8x1", "8x3", "16x1", "32x2", "64x1"]:
         w, n = wn(cfg)
@@ -68,3 +218,159 @@ def gen(rng, tier):
                     for sgn in "ui":
                         yield f"from_be_slice {sgn}{cfg} {b.hex()}", "one-bad-pad-byte"
                         yield f"from_le_slice {sgn}{cfg} {b[::-1].hex()}", "one-bad-pad-byte"
+    # EVERY configuration: the length classes (digit boundaries, BYTES, every residue of the partial digit on
+    # the sign digit / on the first excess digit, 2*BYTES+2) x the content classes (sign of the top byte x
+    # 00/ff padding, exact MIN/MAX cores, one deviating padding byte).  Small types: all classes; wide: a sample.
+    for cfg in cfgs(tier):
+        w, n = wn(cfg)
+        BY = w * n // 8
+        per = None if BY <= 24 else (6 if thorough else 3) if BY <= 128 else 2
+        yield from length_sweep(rng, cfg, per)
+    # the widest in-scope instantiation of every digit type (8192 bits): few, well-chosen requests
+    for cfg in HUGE_CFGS + ([] if thorough else ["64x64"]):
+        w, n = wn(cfg)
+        bw = w // 8
+        BY = bw * n
+        lens = sorted({0, 1, BY - bw - 1, BY - 1, BY, BY + 1, BY + bw + 1, 2 * BY + 2})
+        if thorough:
+            lens = sorted(set(lens + [bw, BY - bw, BY - bw + bw // 2, BY + bw // 2, BY + bw, BY + 2 * bw + 1, 2 * BY, 2 * BY + 1]))
+        yield from length_sweep(rng, cfg, 4 if thorough else 2, lens)
+        # every residue of the partial digit, landing on the sign digit and on the first excess digit
+        res = [BY - bw + r for r in range(1, bw)] + [BY + r for r in range(1, bw)]
+        yield from length_sweep(rng, cfg, 3 if thorough else 2, [l for l in res if l not in lens])
+        vals = huge_values(rng, cfg)
+        picked = [position_value(w, n)] + (vals if thorough else [vals[1], vals[5]])
+        for a in picked:
+            yield from value_lines(rng, cfg, a, "huge")
+        for _ in range(3 if thorough else 1):
+            yield from bytes_lines(rng, cfg)
+    # big-endian target (answered by the Miri run of `post`; the ordinary builds answer `skip`)
+    for cfg in BE_CFGS + (BE_CFGS_THOROUGH if thorough else []):
+        for _ in range(3 if thorough else 1):
+            yield from be_lines(rng, cfg, False)
+    for cfg in BE_CFGS_LIGHT:
+        yield from be_lines(rng, cfg, not thorough or cfg == "64x5")
+
+
+# ------------------------------------------------------------------ extra runs (hooks of check.py)
+
+def _env(extra=None):
+    e = dict(os.environ)
+    e["CARGO_NET_OFFLINE"] = "true"
+    e.pop("RUSTFLAGS", None)
+    e.update(extra or {})
+    return e
+
+
+def _errs(err):
+    return "\n".join(l for l in err.split("\n") if l.startswith("error") or "panicked" in l)[-1200:]
+
+
+def _miri_cmd(harness):
+    return ["cargo", "+nightly", "miri", "run", "--offline", "--quiet", "--target", BE_TARGET, "--bin", "c15",
+            "--features", "nightly", "--target-dir", os.path.join(harness, "target", "miri")]
+
+
+def _miri_env(harness):
+    # own sysroot inside harness/target (never the shared ~/.cache/miri); stdin needs isolation off
+    return _env({"MIRI_SYSROOT": os.path.join(harness, "target", "miri-sysroot"), "MIRIFLAGS": "-Zmiri-disable-isolation"})
+
+
+def pre(ctx):
+    """builds of the two extra runs; a failure is a broken obligation (like any other harness build failure)"""
+    problems = []
+    harness, run = ctx["harness"], ctx["run"]
+    info = ctx.setdefault("c15_extra", {})
+    # 1. nightly feature, release semantics
+    cmd = ["cargo", "+nightly", "build", "--offline", "--bin", "c15", "--features", "nightly", "--profile", "rel",
+           "--target-dir", os.path.join(harness, "target", "nightly")]
+    rc, out, err = run(cmd, cwd=harness, env=_env(), timeout=3600)
+    ctx["log"].append((" ".join(cmd), rc, _errs(err)))
+    if rc != 0:
+        problems.append("harness build failed (nightly, rel profile): " + (_errs(err) or err[-1200:]))
+    else:
+        info["nightly_rel_bin"] = os.path.join(harness, "target", "nightly", "rel", "c15")
+    # 2. big-endian target under Miri
+    if NO_MIRI:
+        info["miri"] = "switched off by VERIF_C15_NO_MIRI"
+        return problems
+    rc, out, err = run(["cargo", "+nightly", "miri", "--version"], cwd=harness, env=_env())
+    if rc != 0:
+        info["miri"] = "not installed"
+        print("WARNING: cargo +nightly miri is not installed: the big-endian-target requests (op@be) of C15 are NOT executed")
+        return problems
+    cmd = ["cargo", "+nightly", "miri", "setup", "--target", BE_TARGET]
+    rc, out, err = run(cmd, cwd=harness, env=_miri_env(harness), timeout=3600)
+    ctx["log"].append((" ".join(cmd), rc, _errs(err)))
+    if rc != 0:
+        info["miri"] = "sysroot for %s cannot be built (rust-src missing?)" % BE_TARGET
+        print("WARNING: the Miri sysroot for %s cannot be built: the big-endian-target requests (op@be) of C15 are NOT executed: %s" % (BE_TARGET, err[-300:]))
+        return problems
+    # build (and run on an empty request list) the harness for the big-endian target
+    rc, out, err = run(_miri_cmd(harness), cwd=harness, env=_miri_env(harness), inp="", timeout=3600)
+    ctx["log"].append((" ".join(_miri_cmd(harness)), rc, _errs(err)))
+    if rc != 0:
+        problems.append("harness build failed (Miri, big-endian target %s): %s" % (BE_TARGET, _errs(err) or err[-1200:]))
+    else:
+        info["miri"] = "ok"
+    return problems
+
+
+def _compare(lines, idx, outs, mo_sp, mode):
+    bad, n = [], 0
+    for i, r in zip(idx, outs):
+        ms = mo_sp[i]
+        if "\t" not in ms or r == "skip":
+            continue
+        mo, sp = ms.split("\t", 1)
+        n += 1
+        if r != sp:
+            bad.append({"line": lines[i], "mode": mode, "crate": r, "spec": sp, "model": mo})
+        elif r != mo:
+            bad.append({"line": lines[i], "mode": mode, "crate": r, "model": mo,
+                        "spec": sp + "   (the crate agrees with the spec, the MODEL does not: correspondence broken)"})
+    return bad, n
+
+
+def post(ctx, lines, R, mo_sp):
+    info = ctx.setdefault("c15_extra", {})
+    bad = []
+    if not ctx.get("bins"):
+        return bad
+    # 1. the nightly-only methods without debug assertions / overflow checks
+    exe = info.get("nightly_rel_bin")
+    if exe and os.path.exists(exe):
+        idx = [i for i, l in enumerate(lines) if l.split(" ", 1)[0] in NIGHTLY_OPS]
+        outs = ctx["run_chunked"](exe, [lines[i] for i in idx])
+        b, n = _compare(lines, idx, outs, mo_sp, "nightly-rel")
+        bad += b
+        info["nightly_rel_evaluations"] = n
+    # 2. big-endian target
+    idx = [i for i, l in enumerate(lines) if l.split(" ", 1)[0].endswith("@be")]
+    info["big_endian_requests"] = len(idx)
+    if info.get("miri") == "ok" and idx:
+        harness = ctx["harness"]
+        p = subprocess.run(_miri_cmd(harness), cwd=harness, env=_miri_env(harness), input="\n".join(lines[i] for i in idx) + "\n",
+                           capture_output=True, text=True)
+        outs = p.stdout.split("\n")
+        if outs and outs[-1] == "":
+            outs.pop()
+        if len(outs) != len(idx):
+            # Miri stopped (undefined behaviour, unsupported operation, abort): report the request it stopped at
+            k = len(outs)
+            bad.append({"line": lines[idx[k]] if k < len(idx) else "(end of input)", "mode": "miri-be",
+                        "crate": "ABORT under Miri: " + _errs(p.stderr)[-400:], "spec": mo_sp[idx[k]] if k < len(idx) else "", "model": ""})
+            idx = idx[:k]
+        b, n = _compare(lines, idx, outs, mo_sp, "miri-be")
+        bad += b
+        info["big_endian_evaluations"] = n
+        info["big_endian_target"] = BE_TARGET + " (interpreted by Miri, debug assertions on, --features nightly)"
+    elif idx:
+        print("WARNING: %d big-endian-target requests of C15 were not executed (Miri: %s)" % (len(idx), info.get("miri", "not built")))
+    return bad
+
+
+def evidence_extra(ctx):
+    d = dict(ctx.get("c15_extra", {}))
+    d.pop("nightly_rel_bin", None)
+    return {"c15_extra_runs": d}
